@@ -41,6 +41,8 @@ META = dict(
 OBLIGATIONS = [
     "C12_self_consistent", "C12_tie_end_of_fit", "C12_roundtrip_partial", "C12_roundtrip_exact", "C12_idempotent_partial",
     "C12_idempotent_after_one",
+    # float side: r32 (the executable binary32 rounding tied to torch) is idempotent on every rational -> no cast hypothesis
+    "C12_r32_idempotent", "C12_idempotent_after_one_r32",
     "C12_instance_name_refuted", "C12_instance_name_case_refuted", "C12_univariate_default_refuted",
     "C12_scalar_noise_shape_refuted", "C12_float64_refuted",
     # composition with C01 (coq/theories/Compose/): the store hypotheses discharged on the real State model
@@ -1265,6 +1267,23 @@ def _check(run: Run, thorough: bool, version: str, tmp: Path):
     vals = [rng.uniform(-100, 100) for _ in range(150)] + [rng.uniform(-1, 1) * 10 ** rng.randrange(-44, 38) for _ in range(150)]
     vals += [0.1, 1 / 3, 16777217.0, 16777219.0, 1e-45, 1.4e-45, 7e-46, 2.1e-45, 1.1754943e-38, 5e-324, 0.0, 1.0 + 2 ** -24,
              1.0 + 2 ** -24 + 2 ** -50, 1.0 + 3 * 2 ** -24]
+    # exact ties and boundaries of binary32 (every value below is an exact float64): half-way points with an even and an odd
+    # significand below them, one float64 ulp on each side of a tie, the tie that renormalises (2^24 - 1/2 -> 2^24), 2^24 +- 1,
+    # subnormal ties (2^-150 -> 0, 3*2^-150 -> 2^-148, 5*2^-150 -> 2^-148), the largest subnormal, the smallest normal, the tie
+    # between them, powers of two over the whole range, the largest finite float32 (overflow is outside the model: never generated)
+    ties = [8388613.5, 8388614.5, 8388615.5, 16777215.5, 16777215.0, 16777216.0, 16777217.0, 16777218.0, 33554434.0, 33554438.0,
+            1.0 + 2 ** -24 - 2 ** -52, 1.0 + 2 ** -24 + 2 ** -52, 1.0 + 3 * 2 ** -24 - 2 ** -52, 1.0 + 3 * 2 ** -24 + 2 ** -52,
+            2.0 - 2 ** -25, 2.0 - 2 ** -24, 0.5 - 2 ** -27, 0.1 + 0.2, 2 / 3,
+            2.0 ** -150, 3 * 2.0 ** -150, 5 * 2.0 ** -150, 2.0 ** -150 * (1 + 2 ** -52), 2.0 ** -150 * (1 - 2 ** -53), 2.0 ** -151,
+            (2 ** 23 - 1) * 2.0 ** -149, 2.0 ** -126, (2 ** 24 - 1) * 2.0 ** -150, (2 ** 24 - 3) * 2.0 ** -150,
+            (2 ** 24 + 1) * 2.0 ** -150, (2 ** 23 + 1) * 2.0 ** -149, 2.0 ** -126 * (1 + 2 ** -24), 2.0 ** -126 * (1 + 3 * 2 ** -24),
+            (2 ** 24 - 1) * 2.0 ** 104, (2 ** 24 - 1) * 2.0 ** 104 * (1 + 2 ** -30), (2 ** 25 - 3) * 2.0 ** 103]
+    ties += [2.0 ** k for k in (-149, -148, -127, -125, -100, -24, -23, -1, 1, 10, 23, 25, 64, 100, 127)]
+    ties += [-t for t in ties[:16] + ties[19:29]]
+    for t in ties:
+        assert math.isfinite(t) and math.isfinite(float(torch.tensor([t]).item())), t
+        run.count("r32-edge", "tie-or-boundary")
+    vals += ties
     for v in vals:
         f32 = float(torch.tensor([v]).item())     # torch.tensor(list of python floats) -> float32
         r_cases.append(f"({cq(v)}, {cq(f32)})")
